@@ -20,6 +20,13 @@ from .vloop import TICK  # noqa: E402
 S_ADDR, F_ADDR, R_ADDR, E_ADDR = 47000, 48000, 49000, 50000
 
 
+# composite public operations of an ET object (several requests per call): a one-byte setting is written by read-modify-write;
+# the read leg answered / silent / refused / failing in the network, a value that does not fit (fails between the legs), a bulk read
+COMPOSITE = {"a": {"api": "write_setting", "args": ["eco_mode_1_switch", 1]}, "b": {"api": "write_setting", "args": ["eco_mode_2_switch", 1]},
+             "c": {"api": "write_setting", "args": ["eco_mode_3_switch", 1]}, "d": {"api": "write_setting", "args": ["eco_mode_4_switch", 1]},
+             "x": {"api": "write_setting", "args": ["eco_mode_1_switch", 300]}, "T": {"api": "read_runtime_data"}}
+
+
 def hist_program(fam: str, port: int, kinds: str, retries: int) -> dict:
     serial = serial_for("ETU" if fam == "ET" else "DTU")
     sim = {"regs": device_regs(fam, serial, 10000), "silent": [[F_ADDR, F_ADDR + 10]], "refused": [[R_ADDR, R_ADDR + 10]],
@@ -27,7 +34,14 @@ def hist_program(fam: str, port: int, kinds: str, retries: int) -> dict:
     if fam == "ES":
         sim["aa55"] = {"info": list(es_info("95048ESU000W0000"))}
     calls = []
+    if fam == "ET" and any(k in COMPOSITE for k in kinds):
+        sim["silent"].append([47522, 47522])
+        sim["refused"].append([47526, 47526])
+        sim["oserr"].append([47530, 47530])
     for k in kinds:
+        if k in COMPOSITE:
+            calls.append(dict(COMPOSITE[k]))
+            continue
         a = {"S": S_ADDR, "F": F_ADDR, "R": R_ADDR, "E": E_ADDR}[k]
         calls.append({"api": "read_setting", "args": [f"modbus-{a}"]})
     return {"inv": [{"family": fam, "port": port, "sim": sim, "retries": retries, "timeout": 1}], "calls": calls,
@@ -331,6 +345,17 @@ def extend(run: Run, prop: str, tier: str, rnd: random.Random) -> None:
                 for n in (1, 2, 3):
                     for kinds in itertools.product("SFRE", repeat=n):
                         progs.append(life_program(fam, port, ka, "".join(kinds)))
+        # composite operations inside the histories (ET): all histories of length <= 2, of length 3 those that end with an
+        # answered plain request (quick: a sample)
+        al = "SFRE" + "".join(COMPOSITE)
+        for port in (8899, 502):
+            for ka in (True, False):
+                hs = [h for n in (1, 2) for h in itertools.product(al, repeat=n) if any(k in COMPOSITE for k in h)]
+                h3 = [h + ("S",) for h in itertools.product(al, repeat=2) if any(k in COMPOSITE for k in h)]
+                if not quick:
+                    h3 = [h for h in itertools.product(al, repeat=3) if any(k in COMPOSITE for k in h)]
+                for h in hs + h3:
+                    progs.append(life_program("ET", port, ka, "".join(h)))
         cases += engine.parallel_map("harness.checks_api", "run_life", progs, procs=16, chunk=20)
     elif prop == "C09":
         L = 5 if quick else 8
